@@ -1024,7 +1024,17 @@ class FxInterp(Interp):
             l = peel(e['lhs'])
             name = l.get('name') if l.get('k') == 'field' else (l.get('path') or '?').split('#')[0]
             env.setdefault('@assign', {})[name] = self.val(e['rhs'], env)
-            if l.get('k') == 'path':
+            raw = e['lhs']
+            while isinstance(raw, dict) and raw.get('k') == 'block' and not raw.get('stmts') and 'expr' in raw:
+                raw = raw['expr']
+            cur = env.get(l.get('path')) if l.get('k') == 'path' else None
+            newv = env['@assign'][name]
+            if l.get('k') == 'path' and raw.get('k') == 'unary' and raw.get('op') == '*' and isinstance(cur, tuple) and len(cur) == 3 and cur[0] == 'struct' \
+                    and isinstance(cur[2], dict) and isinstance(newv, tuple) and len(newv) == 3 and newv[0] == 'struct' and isinstance(newv[2], dict):
+                # `*place = value` through a reference to a modelled struct: whoever holds the reference sees the new content
+                cur[2].clear()
+                cur[2].update(newv[2])
+            elif l.get('k') == 'path':
                 env[l['path']] = env['@assign'][name]
             elif l.get('k') == 'field' and ('.' + name) in env:
                 env['.' + name] = env['@assign'][name]
